@@ -195,7 +195,7 @@ def canary_args(canary):
     f = os.path.join(canary, "secret.txt")
     return [("file", "'%s'" % f), ("dir", "'%s'" % canary), ("new", "'%s'" % os.path.join(canary, "created_by_program")),
             ("script", "'%s'" % os.path.join(canary, "script.ckl")), ("cmd", "'touch'"),
-            ("arglist", "['%s']" % os.path.join(canary, "touched")), ("true", "TRUE")]
+            ("arglist", "['%s']" % os.path.join(canary, "touched")), ("true", "TRUE"), ("callback", "fn(cb_args...) cb_args...")]
 
 
 def run_calibrate(ctx, canary):
@@ -417,6 +417,28 @@ def run_invoke(ctx, spec, canary, os_classes):
                         ctx.count("audit_events_allowed")
     check_state(ctx, S, ("invoke-final", "end of shard"), canary, before, os_classes)
     ctx.count("callees", len(mine))
+    if spec["part"] == 0:
+        # programs that only use what secure mode offers, but in bulk: megabytes through string outputs and inputs, long
+        # lists, many definitions - no file may be created, opened or written on their behalf
+        pre = "" if legacy else "require IO unqualified; require String unqualified; require List unqualified; "
+        volume = [
+            "def o = str_output(); for i in range(220) do print('x' * 10000, o) end; length(get_output_string(o))",
+            "def o = str_output(); for i in range(30000) do println(string(i) * 8, o) end; length(get_output_string(o))",
+            "def i = str_input('line\\n' * 300000); def n = 0; for l in i do n += 1 end; n",
+            "def s = 'abcdefgh' * 400000; [length(s), length(upper(s)), length(s + s)]",
+            "def l = range(300000); [length(l), sum(l), length(string(l))]",
+            "def m = <<<i => string(i) for i in range(100000)>>>; length(string(m))",
+            "def o = str_output(); printf('{0}', 'y' * 3000000, out = o); length(get_output_string(o))",
+            "process_lines('%s', fn(line) line)" % os.path.join(canary, "secret.txt"),
+            "process_lines(['%s'], fn(line) line)" % os.path.join(canary, "secret.txt"),
+        ]
+        for prog in volume:
+            src = pre + "do %s catch all 'raised' end" % prog
+            S.fresh()
+            o, env = S.run(src)
+            ctx.count("secure_volume_programs")
+            ctx.case(src, nontrivial=True)
+            check_state(ctx, S, ("volume", src[:200]), canary, before, os_classes)
 
 
 def run_strace(ctx, canary, moddir):
